@@ -7,6 +7,8 @@
 //! dies yields the partial observations plus `"aborted:<signal>"`, a child that outlives the
 //! watchdog yields them plus `"diverged"`.
 mod areas;
+pub mod shim;
+pub mod shimmed;
 pub mod util;
 
 use serde_json::{json, Value};
